@@ -416,6 +416,8 @@ struct SctpInner {
 
     // PR-SCTP: Advanced Peer Ack Point (RFC 3758)
     advanced_peer_ack_tsn: AtomicU32,
+    /// Highest cumulative TSN the peer has acknowledged (our TSN space).
+    peer_cumulative_tsn_ack: AtomicU32,
     forward_tsn_pending: AtomicBool,
     forward_tsn_streams: Mutex<Vec<(u16, u16)>>,
     has_pr_sctp: AtomicBool,
@@ -853,6 +855,7 @@ impl SctpTransport {
             },
             inbound_streams: Mutex::new(HashMap::new()),
             advanced_peer_ack_tsn: AtomicU32::new(0),
+            peer_cumulative_tsn_ack: AtomicU32::new(0),
             forward_tsn_pending: AtomicBool::new(false),
             forward_tsn_streams: Mutex::new(Vec::new()),
             has_pr_sctp: AtomicBool::new(false),
@@ -1872,6 +1875,10 @@ impl SctpInner {
             self.next_tsn.load(Ordering::SeqCst).wrapping_sub(1),
             Ordering::SeqCst,
         );
+        self.peer_cumulative_tsn_ack.store(
+            self.next_tsn.load(Ordering::SeqCst).wrapping_sub(1),
+            Ordering::SeqCst,
+        );
 
         let channels_to_process = {
             let mut channels = self.data_channels.lock();
@@ -1920,6 +1927,24 @@ impl SctpInner {
             let num_gap_ack_blocks = buf.get_u16();
             let _num_duplicate_tsns = buf.get_u16();
             let old_rwnd = self.peer_rwnd.swap(a_rwnd, Ordering::SeqCst);
+
+            if tsn_gt(
+                cumulative_tsn_ack,
+                self.peer_cumulative_tsn_ack.load(Ordering::SeqCst),
+            ) {
+                self.peer_cumulative_tsn_ack
+                    .store(cumulative_tsn_ack, Ordering::SeqCst);
+            }
+            // RFC 3758 §3.5 (C2/C3): as long as the peer's cumulative ack is behind
+            // the advanced peer ack point, the FORWARD-TSN has to be sent again.
+            if self.has_pr_sctp.load(Ordering::Relaxed)
+                && tsn_gt(
+                    self.advanced_peer_ack_tsn.load(Ordering::SeqCst),
+                    cumulative_tsn_ack,
+                )
+            {
+                self.forward_tsn_pending.store(true, Ordering::SeqCst);
+            }
 
             // Log peer_rwnd to understand flow control
             if a_rwnd < 100000 {
@@ -2287,6 +2312,10 @@ impl SctpInner {
 
         *self.state.lock() = SctpState::Connected;
         self.advanced_peer_ack_tsn.store(
+            self.next_tsn.load(Ordering::SeqCst).wrapping_sub(1),
+            Ordering::SeqCst,
+        );
+        self.peer_cumulative_tsn_ack.store(
             self.next_tsn.load(Ordering::SeqCst).wrapping_sub(1),
             Ordering::SeqCst,
         );
@@ -3592,7 +3621,7 @@ impl SctpInner {
         }
 
         // Advance the advanced peer ack point past consecutive abandoned chunks
-        let last_sacked = self.cumulative_tsn_ack.load(Ordering::SeqCst);
+        let last_sacked = self.peer_cumulative_tsn_ack.load(Ordering::SeqCst);
         let mut advanced = self.advanced_peer_ack_tsn.load(Ordering::SeqCst);
         if tsn_gt(last_sacked, advanced) {
             advanced = last_sacked;
@@ -3640,7 +3669,14 @@ impl SctpInner {
                 }
             }
             {
+                // Merge with the pairs of a FORWARD-TSN that may still be unacknowledged.
                 let mut fwd = self.forward_tsn_streams.lock();
+                for (sid, ssn) in fwd.iter() {
+                    let e = stream_ssn.entry(*sid).or_insert(*ssn);
+                    if ssn_gt(*ssn, *e) {
+                        *e = *ssn;
+                    }
+                }
                 *fwd = stream_ssn.into_iter().collect();
             }
             for t in remove {
@@ -3655,15 +3691,15 @@ impl SctpInner {
 
     fn create_forward_tsn_chunk(&self) -> Option<Bytes> {
         let advanced = self.advanced_peer_ack_tsn.load(Ordering::SeqCst);
-        let last_sacked = self.cumulative_tsn_ack.load(Ordering::SeqCst);
+        let last_sacked = self.peer_cumulative_tsn_ack.load(Ordering::SeqCst);
         if !tsn_gt(advanced, last_sacked) {
+            // Acknowledged: the stream/SSN pairs are not needed any more.
+            self.forward_tsn_streams.lock().clear();
             return None;
         }
 
-        let stream_ssn_pairs: Vec<(u16, u16)> = {
-            let mut fwd = self.forward_tsn_streams.lock();
-            std::mem::take(&mut *fwd)
-        };
+        // Kept (not taken) so that a re-sent FORWARD-TSN carries them again.
+        let stream_ssn_pairs: Vec<(u16, u16)> = self.forward_tsn_streams.lock().clone();
 
         let pair_bytes = stream_ssn_pairs.len() * 4;
         let mut body = BytesMut::with_capacity(4 + pair_bytes);
